@@ -237,6 +237,20 @@ func runC05(r *rep.R) {
 					}
 				}
 			}
+			// authenticated wrappers followed by long runs of 0xFF (integrity pad
+			// scan): every run length around the 8-bit boundary and up to the
+			// receive buffer
+			for _, plen := range []int{0, 1, 7, 16} {
+				for _, run := range []int{250, 253, 254, 255, 256, 257, 258, 259, 260, 300, 400, 480, 494} {
+					for _, tail := range [][]byte{nil, {0x07}, {0x03, 0x07}, pattern(12, 0x11, 1)} {
+						hdr := []byte{0x06, 0x40, 1, 0, 0, 0, 2, 0, 0, 0, byte(plen), 0}
+						in := cat(hdr, pattern(plen, 0x20, 1), pattern(run, 0xFF, 0), tail)
+						if len(in) <= 512 {
+							do(l, in)
+						}
+					}
+				}
+			}
 		case "ipmi.Message":
 			for _, nf := range []byte{0x00, 0x01, 0x06, 0x07, 0x2c, 0x2d, 0x2e, 0x2f, 0x30, 0x3f} {
 				for n := 0; n <= 12; n++ {
@@ -285,6 +299,6 @@ func runC05(r *rep.R) {
 	}
 	r.Bound("layers", len(reg))
 	runC05Proto(r, &idx)
-	r.Assume("a 60 s watchdog per decode turns non-termination into a violation; no decoder loops on data-dependent bounds other than length-bounded pad scans")
+	r.Assume("a watchdog per decode turns non-termination into a violation; no decoder loops on data-dependent bounds other than length-bounded pad scans")
 	r.Assume("byte strings are enumerated structurally (lengths, every single-byte and many two-byte deviations from valid encodings, crafted check-straddling inputs), not all 256^512 strings")
 }
